@@ -1953,10 +1953,12 @@ pub fn exec_codec(toks: &[&str]) -> String {
                 Ok(Ok(r)) => Ok(format!("ok {} {} {}", r.content().as_id().into_u32(), show_roa_iter(r.content().v4_addrs()), show_roa_iter(r.content().v6_addrs()))),
             }
         }
-        ["aspax", cust, provs] => {
+        ["aspax", cust, provs] | ["aspaxa", cust, provs] => {
+            // aspax: AspaBuilder::new(all providers); aspaxa: AspaBuilder::empty() and add_provider one by one, in the order given
+            let via_add = toks[0] == "aspaxa";
             let (cust, provs) = (p_num::<u32>(cust)?, p_providers(provs)?);
             let signer = PoolSigner(w);
-            let built = stage("build", || build_aspa(cust, &provs, false).map(|b| b.finalize(std_sob(), &signer, &w.pool.keys[0].id)));
+            let built = stage("build", || build_aspa(cust, &provs, via_add).map(|b| b.finalize(std_sob(), &signer, &w.pool.keys[0].id)));
             let built = match built { Err(p) => return Ok(p), Ok(Err(())) => return Ok("dup".into()), Ok(Ok(Err(_))) => return Err(Refused), Ok(Ok(Ok(a))) => a };
             let content = match stage("encode", || built.content().encode_ref().to_captured(Mode::Der).into_bytes()) { Ok(b) => b, Err(p) => return Ok(p) };
             Ok(format!("{} {} {}", hex(&content), show_prov_iter(built.content()), built.content().provider_as_set().len()))
@@ -2058,6 +2060,16 @@ pub fn generate_codec(ctx: &mut Ctx) {
         let mut provs: Vec<u32> = (0..kp).map(|_| match rng.below(6) { 0 => 0, 1 => u32::MAX, 2 => cust, 3 => rng.below(300) as u32, _ => rng.next() as u32 }).collect();
         if strict { provs.retain(|p| *p != cust); provs.sort(); provs.dedup(); }
         ctx.case(&format!("aspax {} {}", cust, if provs.is_empty() { "-".into() } else { provs.iter().map(|p| p.to_string()).collect::<Vec<_>>().join(",") }));
+        {
+            // the same through add_provider, in an order of its own, sometimes repeating the first, the last or the largest
+            let mut q = provs.clone();
+            for i in (1..q.len()).rev() { let j = rng.below(i as u64 + 1) as usize; q.swap(i, j); }
+            if !q.is_empty() && rng.chance(1, 3) {
+                let d = match rng.below(3) { 0 => q[0], 1 => *q.last().unwrap(), _ => *q.iter().max().unwrap() };
+                let at = rng.below(q.len() as u64 + 1) as usize; q.insert(at, d);
+            }
+            ctx.case(&format!("aspaxa {} {}", cust, if q.is_empty() { "-".into() } else { q.iter().map(|p| p.to_string()).collect::<Vec<_>>().join(",") }));
+        }
         let mut pv = provs.clone();
         let dv = if rng.chance(1, 2) { rng.below(9) } else { 99 };
         if dv != 0 { pv.retain(|p| *p != cust); pv.sort(); pv.dedup(); } else if rng.bool() { pv.sort(); }
